@@ -197,6 +197,13 @@ func runHistories(t *testing.T, g histGroup, batch []HistCase) map[int]histOut {
 					t.Fatal(err)
 				}
 			}
+			if !perMsg {
+				// a recipient the target accepts (no history, no row): the first attempt of the
+				// shared message is a partial failure that goes on to Commit, not an Abort
+				if err := d.AddRcpt(ctx, "ok@example.org", smtp.RcptOptions{}); err != nil {
+					t.Fatal(err)
+				}
+			}
 			hdr := textproto.Header{}
 			hdr.Add("Subject", "verif")
 			hdr.Add("From", "<"+from+">")
